@@ -24,7 +24,94 @@ def tasks(tier, seed):
     # be judged by the validator of the request it answers)
     for tr, ka in (("udp", False), ("udp", True), ("tcp", True)):
         ts.append({"name": f"queued-{tr}-{ka}", "fn": "queued", "transport": tr, "ka": ka})
+    api = _api_items(tier)
+    for i in range(8):
+        if api[i::8]:
+            ts.append({"name": f"api-{i}", "fn": "api", "items": api[i::8]})
     return ts
+
+
+def _api_ack(cfg, sid, transport="udp"):
+    """API level: write_setting(id, v) for every encodable v, against the simulated inverter that acknowledges with the
+    conforming echo of the request (built independently of the validators).  The acknowledge must be accepted."""
+    from .c17 import WriteRead
+    from .fakeinv import const_crc, drive
+    from symx.core import sym_int
+
+    class ApiAck(WriteRead):
+        def __init__(self, *a):
+            super().__init__(*a)
+            self.name = "api-conforming-ack"
+
+        def _go(self, M, inv, value):
+            try:
+                drive(inv.write_setting(self.sid, value))
+            except RuntimeError as e:
+                if "validator refuses" in str(e):
+                    return str(e)
+            except Exception:  # noqa: BLE001  (anything else about write_setting is C17's subject)
+                return None
+            return None
+
+        def symbolic(self, ex):
+            G = shimmed_()
+            G.modbus._modbus_checksum = const_crc
+            inv, fake = self._setup(G, lambda a: sym_int(f"p{a}", 0, 0xFFFF), const_crc)
+            st = inv._settings[self.sid]
+            value, ref, cmp = self.sym_value(st, ex)
+            bad = self._go(G, inv, value)
+            if bad:
+                ex.fail("the conforming acknowledge of a write was refused by the response validator", bad[:200])
+            return "accepted"
+
+        def concrete(self, inputs):
+            R = real_()
+            inv, fake = self._setup(R, lambda a: inputs.get(f"p{a}", 0), None)
+            st = inv._settings[self.sid]
+            value = self.conc_value(st, inputs)
+            bad = self._go(R, inv, value)
+            tag = f"{self.cfg['family']}:{self.sid}" + (":tcp" if self.transport == "tcp" else "")
+            return {"outcome": "accepted", "violation": f"{tag}: conforming write acknowledge refused" if bad else None,
+                    "observed": f"write_setting({self.sid}, {value!r}) -> {bad or 'acknowledged'}"}
+    return ApiAck(cfg, sid, transport)
+
+
+def shimmed_():
+    from vf.common import shimmed
+    G = shimmed()
+    if not hasattr(G, "orig_sensor_fns"):
+        G.orig_sensor_fns = (G.sensor.decode_day_of_week, G.sensor.decode_months)
+        G.orig_bitmap = G.sensor.decode_bitmap
+    return G
+
+
+def real_():
+    from vf.common import real
+    return real()
+
+
+def _api_items(tier):
+    """one setting per (family, firmware variant, sensor class, transport of the setting)"""
+    from .c11 import SETTING_CFGS
+    from .c17 import encodable
+    from . import models, sensors as S
+    R = real_()
+    items, seen = [], set()
+    for cfg in SETTING_CFGS:
+        inv, _ = models.make(R, cfg)
+        for st in inv.settings():
+            c = S.cls_name(st)
+            if not encodable(st) or c in ("EcoModeV1", "EcoModeV2", "Schedule", "PeakShavingMode") or \
+                    (cfg["family"] == "ES" and c != "ByteH"):
+                continue   # group writes are acknowledged with register and count only (no value echo); ES block settings: C19
+            k = (cfg["family"], cfg.get("firmware"), c, st.offset > 30000)
+            if k in seen:
+                continue
+            seen.add(k)
+            items.append((cfg, st.id_, "udp"))
+            if cfg["family"] != "ES" and c in ("ByteH", "IntegerS", "Integer"):
+                items.append((cfg, st.id_, "tcp"))
+    return items
 
 
 def _queued(transport, ka):
@@ -49,6 +136,8 @@ def _queued(transport, ka):
 
 
 def run_task(task):
+    if task["fn"] == "api":
+        return {"harnesses": [explore(_api_ack(*it), max_paths=5000, max_seconds=300, witnesses_per_outcome=1) for it in task["items"]]}
     if task["fn"] == "queued":
         return {"harnesses": [explore(_queued(task["transport"], task["ka"]), max_paths=60000, max_seconds=900, witnesses_per_outcome=1)]}
     if task["fn"] == "transport":
@@ -65,6 +154,8 @@ def run_task(task):
 
 def replay(case):
     p = case["params"]
+    if case["harness"] == "api-conforming-ack":
+        return _api_ack(p["cfg"], p["id"], p["transport"]).concrete(case["inputs"])
     if case["harness"] == "conforming-while-queued":
         return _queued(p["transport"], p["keep_alive"]).concrete(case["inputs"])
     if case["harness"] == "conforming-after-fragment":
@@ -82,7 +173,9 @@ def evidence_meta(tier):
                  "payload must equal the frame's payload bytes")
     m["bounds"]["transport"] = ("a complete conforming answer (a) to the request after one that left a fragment behind, "
                                 "(b) to a request in flight while a second caller's request of another shape (2 vs 3 "
-                                "registers) is queued: udp x keep-alive, tcp keep-alive; start offsets 0..2T, delays 0..T-1")
+                                "registers) is queued: udp x keep-alive, tcp keep-alive; start offsets 0..2T, delays 0..T-1; "
+                                "(c) API level: write_setting over the encodable domain of one setting per (family, "
+                                "firmware, class), acknowledged by the simulated inverter's conforming echo")
     m["outside"] = ["tcp without keep-alive with two callers: the stale connection_lost defect recorded under C06 closes "
                     "the second caller's connection before any answer reaches a validator","frames longer than 264 bytes", "AA55 frames are at most 264 bytes (length byte) so all are covered",
                     "trailing bytes after an RTU/TCP read frame: payload compared as a prefix of response_data()"]
